@@ -20,11 +20,13 @@
     shared between a source and a derived object in the code would show up as a disagreement with
     the model, for which the theorems below exclude any influence.
 
+    Context <-> Definition (second half of this file, Proofs/ContextDefinition.v): the Context
+    constructor is [context_init] of Model/Validation.v (property C19); [C14_definition_to_context],
+    [C14_context_to_definition], [C14_round_trip_definition], [C14_round_trip_context] and
+    [C14_context_eq_iff_triples] state the two round trips and "equal exactly when the triples are
+    equal" on the model.
+
     NOT modelled here.
-    - Context construction and its validation (Context(objects, properties, bools)) is property C19
-      (Properties/C19.v); a Context is immutable and is determined by its triple, and Context.__eq__
-      compares exactly the three components, so "two contexts are equal exactly when their triples are
-      equal" holds by construction and is checked on the real objects by the harness.
     - shape, fill_ratio, the table string and crc32 are functions of the triple; their agreement
       between a context and its definition is checked by the harness on the real objects, not modelled. *)
 From Coq Require Import ZArith List Bool.
@@ -267,3 +269,113 @@ Example C14_witness :
     ([0; 2], [10; 11; 12], [[true; false; true]; [true; true; false]])%nat ::
     ([0; 1; 2], [99; 11; 12], [[true; false; true]; [false; true; false]; [true; true; false]])%nat :: derived.
 Proof. vm_compute. repeat split; reflexivity. Qed.
+
+(** * Context <-> Definition: the round trip through a real Context, and equality of contexts
+
+    (This section supersedes the first item of "NOT modelled here" in the header: the constructor
+    Context(objects, properties, bools) is [context_init] of Model/Validation.v (property C19),
+    Context.bools is [context_bools] (row g, cell m is [inc c g m]) and Context.definition() is
+    Definition(context.objects, context.properties, context.bools), i.e. [d_init] on that triple.
+    Context( *definition) passes the definition's bools as Python bools ([VBool]).) *)
+From Concepts Require Import Base.BitSet Spec.Context Model.Validation Proofs.ContextDefinition.
+
+(** Context.bools and the (objects, properties, bools) triple of an accepted context *)
+Theorem C14_context_bools_meaning : forall c,
+  context_bools c = map (fun g => map (fun m => inc c g m) (seq 0 (nM c))) (seq 0 (nG c)).
+Proof. reflexivity. Qed.
+
+Theorem C14_ctx_triple_meaning : forall objs props c,
+  ctx_triple (objs, props, c) = (objs, props, context_bools c).
+Proof. reflexivity. Qed.
+
+(** Context( *d): accepted exactly when both axes are non-empty and share no name; the context then
+    has the names of d and the cells of d *)
+Theorem C14_definition_to_context : forall d,
+  Inv d -> objects_of d <> [] -> properties_of d <> [] ->
+  (forall x, In x (objects_of d) -> ~ In x (properties_of d)) ->
+  exists c, context_init (objects_of d) (properties_of d) (map (map VBool) (bools_of d))
+              = Ok (objects_of d, properties_of d, c)
+            /\ wf_ctx c /\ context_bools c = bools_of d.
+Proof. exact definition_to_context. Qed.
+
+(** a Definition need not be a valid Context *)
+Theorem C14_definition_to_context_raises : forall d,
+  (objects_of d = [] \/ properties_of d = [] \/ exists x, In x (objects_of d) /\ In x (properties_of d)) ->
+  context_init (objects_of d) (properties_of d) (map (map VBool) (bools_of d)) = Raise ValueError.
+Proof. exact definition_to_context_raises. Qed.
+
+Theorem C14_definition_to_context_iff : forall d,
+  Inv d ->
+  ((exists r, context_init (objects_of d) (properties_of d) (map (map VBool) (bools_of d)) = Ok r) <->
+   objects_of d <> [] /\ properties_of d <> [] /\ (forall x, In x (objects_of d) -> ~ In x (properties_of d))).
+Proof. exact definition_to_context_iff. Qed.
+
+(** context.definition(): always succeeds, and its triple is the context's triple; the cells are the
+    truth values of the cells the context was built from *)
+Theorem C14_context_to_definition : forall objs props bools c,
+  context_init objs props bools = Ok (objs, props, c) ->
+  exists d, d_init objs props (context_bools c) = Ok d /\ Inv d /\
+            obs_defn d = (objs, props, context_bools c) /\
+            context_bools c = map (map truthy_val) bools.
+Proof. exact context_to_definition. Qed.
+
+(** Context( *d).definition() has the triple of d *)
+Theorem C14_round_trip_definition : forall d,
+  Inv d -> objects_of d <> [] -> properties_of d <> [] ->
+  (forall x, In x (objects_of d) -> ~ In x (properties_of d)) ->
+  exists c d',
+    context_init (objects_of d) (properties_of d) (map (map VBool) (bools_of d))
+      = Ok (objects_of d, properties_of d, c) /\
+    d_init (objects_of d) (properties_of d) (context_bools c) = Ok d' /\
+    Inv d' /\ obs_defn d' = obs_defn d.
+Proof. exact round_trip_definition. Qed.
+
+(** Context( *c.definition()) is c itself *)
+Theorem C14_round_trip_context : forall objs props bools c,
+  context_init objs props bools = Ok (objs, props, c) ->
+  exists d c',
+    d_init objs props (context_bools c) = Ok d /\ Inv d /\
+    context_init (objects_of d) (properties_of d) (map (map VBool) (bools_of d)) = Ok (objs, props, c') /\
+    context_bools c' = context_bools c /\ rows c' = rows c /\ c' = c.
+Proof. exact round_trip_context. Qed.
+
+(** the row integers of a context are determined by its cells *)
+Theorem C14_rows_of_context_bools : forall c,
+  wf_ctx c -> rows c = map (fun l => row_int (map VBool l)) (context_bools c).
+Proof. exact rows_of_context_bools. Qed.
+
+Theorem C14_ctx_ext : forall c1 c2,
+  wf_ctx c1 -> wf_ctx c2 -> nG c1 = nG c2 -> nM c1 = nM c2 ->
+  (forall g m, (g < nG c1)%nat -> (m < nM c1)%nat -> inc c1 g m = inc c2 g m) -> c1 = c2.
+Proof. exact ctx_ext. Qed.
+
+(** two accepted contexts are equal exactly when their triples are equal *)
+Theorem C14_context_eq_iff_triples : forall o1 p1 b1 c1 o2 p2 b2 c2,
+  context_init o1 p1 b1 = Ok (o1, p1, c1) -> context_init o2 p2 b2 = Ok (o2, p2, c2) ->
+  ((o1, p1, context_bools c1) = (o2, p2, context_bools c2) <-> o1 = o2 /\ p1 = p2 /\ c1 = c2).
+Proof. exact context_eq_iff_triples. Qed.
+
+(** the same for any two well-formed contexts whose width is the number of property names *)
+Theorem C14_ctx_eq_iff_triples : forall o1 p1 c1 o2 p2 c2,
+  wf_ctx c1 -> wf_ctx c2 -> nM c1 = length p1 -> nM c2 = length p2 ->
+  (ctx_triple (o1, p1, c1) = ctx_triple (o2, p2, c2) <-> o1 = o2 /\ p1 = p2 /\ c1 = c2).
+Proof. exact ctx_eq_iff_triples. Qed.
+
+(** in terms of the constructor arguments: equal names and cells of equal truth value *)
+Theorem C14_context_eq_iff_args : forall o1 p1 b1 c1 o2 p2 b2 c2,
+  context_init o1 p1 b1 = Ok (o1, p1, c1) -> context_init o2 p2 b2 = Ok (o2, p2, c2) ->
+  (o1 = o2 /\ p1 = p2 /\ c1 = c2 <->
+   o1 = o2 /\ p1 = p2 /\ map (map truthy_val) b1 = map (map truthy_val) b2).
+Proof. exact context_eq_iff_args. Qed.
+
+(** witness: a context built from truthy/falsy cells, its definition, and back to the same context *)
+Example C14_context_definition_witness :
+  let objs := [0; 1; 2]%nat in let props := [10; 11]%nat in
+  let bools := [[VBool true; VInt 0]; [VNone; VStr 7]; [VInt 5; VBool false]] in
+  exists c d,
+    context_init objs props bools = Ok (objs, props, c) /\
+    context_bools c = [[true; false]; [false; true]; [true; false]] /\
+    d_init objs props (context_bools c) = Ok d /\
+    obs_defn d = (objs, props, context_bools c) /\
+    context_init (objects_of d) (properties_of d) (map (map VBool) (bools_of d)) = Ok (objs, props, c).
+Proof. exact context_definition_witness. Qed.
